@@ -25,6 +25,7 @@ FAMILIES = STD + NUMBER + OTHER
 NAMES = [None, "A", "B", "odfdo_auto_7"]
 FLAGS = [(False, False), (True, False), (False, True)]
 DOCS = [("template", "text"), ("template", "spreadsheet"), ("template", "presentation"), ("file", "lpod_styles.odt"), ("file", "example.odt")]
+MERGE_DOCS = DOCS + [("file", "issue_28_pretty.odt"), ("file", "simple_table.ods"), ("file", "span_style.odt")]
 
 
 def new_doc(seed):
@@ -232,7 +233,7 @@ def merge_task(seed):
     """merge_styles_from: union, the other document's definitions win, the other document unchanged."""
     fails = []
     nev = 0
-    for other_seed in DOCS:
+    for other_seed in MERGE_DOCS:
         if other_seed == seed:
             continue
         nev += 1
@@ -252,6 +253,16 @@ def merge_task(seed):
             return out
 
         mine, theirs = keys(doc), keys(other)
+        # what the other document defines under each (family, name), as odfdo itself names them
+        their_defs = {}
+        their_parts = {}
+        old_elems = [e for c in containers(doc).values() for e in c]  # kept alive: identity of what was there before
+        old_ids = {id(e) for e in old_elems}
+        for st_ in other.get_styles():
+            nm = getattr(st_, "name", None)
+            if nm and st_.family:
+                their_defs.setdefault((st_.family, nm), set()).add(etree.tostring(st_._Element__element, method="c14n", exclusive=True))
+                their_parts.setdefault((st_.family, nm), set()).add("content" if st_.parent.parent.tag == "office:document-content" else "styles")
         cls = f"{seed[1]}<-{other_seed[1]}"
         try:
             doc.merge_styles_from(other)
@@ -265,13 +276,31 @@ def merge_task(seed):
             fails.append({"signature": "site=Document.merge_styles_from; class=merge; symptom=source-document-modified",
                           "replay": {"replay_module": "mc.checks.c13", "history": [list(seed), ["merge", list(other_seed)]], "oracle": "other-unchanged", "expected": f"{len(theirs)} styles left in the source", "actual": f"{left} styles left"}})
         got = keys(doc)
-        missing = sorted(str(k) for k in (mine | theirs) - got)
+        # a style of ours replaced by the other document's style of the same part, type, family and name
+        # (possibly kept in another container of that part) is "replaced", not lost
+        replaced = {k for k in mine if any(t[0] == k[0] and t[2:] == k[2:] for t in theirs)}
+        missing = sorted(str(k) for k in ((mine - replaced) | theirs) - got)
         if missing:
             fails.append({"signature": "site=Document.merge_styles_from; class=merge; symptom=not-the-union",
                           "replay": {"replay_module": "mc.checks.c13", "history": [list(seed), ["merge", list(other_seed)]], "oracle": "union", "expected": "every style of both", "actual": missing[:6]}})
         if duplicates(doc):
             fails.append({"signature": "site=Document.merge_styles_from; class=merge; symptom=duplicate-style",
                           "replay": {"replay_module": "mc.checks.c13", "history": [list(seed), ["merge", list(other_seed)]], "oracle": "unique", "expected": [], "actual": duplicates(doc)[:5]}})
+        wrong = []
+        for (fam_, nm), c14 in sorted(their_defs.items()):
+            try:
+                found = doc.get_style(fam_, nm)
+            except Exception as e:
+                found = None
+            if found is None or etree.tostring(found._Element__element, method="c14n", exclusive=True) not in c14:
+                wrong.append((fam_, nm))
+            elif id(found._Element__element) in old_ids and find_where(doc, found._Element__element)[0] in their_parts[(fam_, nm)]:
+                # lookup still answers with the receiver's old element although the other document defines
+                # that family+name in the same part (a clash across parts is the caller's, outside the domain)
+                wrong.append((fam_, nm, "old element kept in " + find_where(doc, found._Element__element)[1]))
+        if wrong:
+            fails.append({"signature": "site=Document.merge_styles_from; class=merge; symptom=other-definition-did-not-win",
+                          "replay": {"replay_module": "mc.checks.c13", "history": [list(seed), ["merge", list(other_seed)]], "oracle": "other-wins-for-every-style", "expected": "every (family, name) of the other document is what get_style returns", "actual": wrong[:6]}})
         sh = doc.get_style("paragraph", "Shared")
         if sh is None or "#222222" not in sh.serialize():
             fails.append({"signature": "site=Document.merge_styles_from; class=merge; symptom=other-definition-did-not-win",
@@ -331,7 +360,7 @@ def run(prop, tier, vseed):
         docs2 = DOCS[:3]
     tasks = [("w", (seed, None)) for seed in DOCS]
     tasks += [("w", (seed, first)) for seed in docs2 for first in reps]
-    tasks += [("merge", seed) for seed in DOCS]
+    tasks += [("merge", seed) for seed in MERGE_DOCS]
     tasks += [("numbering", fam) for fam in ("paragraph", "text", "table-cell", "graphic")]
     nproc = int(os.environ.get("VERIF_NPROC", "0")) or min(16, os.cpu_count() or 1)
     nev = 0
